@@ -311,3 +311,84 @@ def check_gen_bits(ctx, res, config="all"):
     else:
         res.ok("R10-gen-bits", b.path, {"fill": "whole slice", "top_word": "data[len-1] >>= 32 - rem, only for rem > 0"})
     res.clause("R10: gen_bits fills every word from the RNG and only shifts the last word right by 32 - rem when rem > 0")
+
+
+def check_fixpoint_invariant(ctx, res, config="all"):
+    """Newton driver `fixpoint(x, max_bits, f)`: whenever the iterate x and the candidate xn are compared, xn = f(x) for the
+    *current* x - every path from an update of x to a comparison of (x, xn) recomputes xn by calling f(&x)"""
+    facts = ctx.facts(config)
+    bs = facts.find(suffix="biguint::fixpoint")
+    if len(bs) != 1:
+        res.fail(Finding("R10-anchor-lost", "fixpoint", "biguint::fixpoint not found", file="src/biguint.rs", line=0))
+        return
+    b = bs[0]
+    live = b.live_blocks()
+    fl = core.Flow(b)
+    # the candidate local: destination of f(&x) calls (directly or through a move)
+    fcalls = []
+    for i, t in b.calls():
+        if i in live and callee_name(t) == "call" and len(t["args"]) == 2:
+            rr = fl.roots_of_operand(t["args"][0])
+            if any(r[0] == "param" and r[1] == 3 for r in rr):
+                fcalls.append((i, t))
+    if len(fcalls) < 2:
+        res.fail(Finding("R10-anchor-lost", "fixpoint-calls", "fewer than two applications of the iteration closure found", b))
+        return
+    xn = None
+    refresh = set()
+    for i, t in fcalls:
+        d = t["dest"]["local"]
+        # follow `xn = move tmp`
+        tgt = d
+        for bi, si, s in b.stmts():
+            if s["k"] == "assign" and not s["place"]["proj"] and s["rv"]["k"] == "use" and core.op_local(s["rv"]["op"]) == d and bi in live:
+                tgt = s["place"]["local"]
+                refresh.add(bi)
+        if tgt == d:
+            refresh.add(i)
+        xn = tgt if xn is None or b.locals[tgt].get("name") else xn
+    x = 1
+    xdefs = [bi for bi, si, s in b.stmts() if s["k"] == "assign" and not s["place"]["proj"] and s["place"]["local"] == x and bi in live]
+    compares = []
+    for i, t in b.calls():
+        if i in live and callee_name(t) in ("lt", "gt", "le", "ge", "cmp", "partial_cmp") and len(t["args"]) == 2:
+            ls = set()
+            for a in t["args"]:
+                for r in fl.roots_of_operand(a):
+                    if r[0] == "param" and r[1] == x:
+                        ls.add("x")
+                pl = core.op_place(a)
+                if pl:
+                    bl_ = pl["local"]
+                    for d in b.defs().get(bl_, []):
+                        if d[0] == "assign" and d[3]["rv"]["k"] == "ref" and d[3]["rv"]["place"]["local"] == xn:
+                            ls.add("xn")
+            if ls == {"x", "xn"}:
+                compares.append(i)
+    errs = []
+    if len(compares) < 2:
+        errs.append("expected two loop tests comparing the iterate with the candidate, found %d" % len(compares))
+    for d in xdefs:
+        r = b.reachable(d, without_blocks=list(refresh - {d}))
+        stale = [c for c in compares if c in r and c != d]
+        if d in refresh:
+            continue
+        if stale:
+            errs.append("after the iterate is updated (bb%d) a path reaches the loop test (bb%d) without recomputing the candidate f(&x): the test would use a stale candidate" % (d, stale[0]))
+    # the callee argument of every application is the current iterate
+    for i, t in fcalls:
+        tup = core.op_place(t["args"][1])
+        ok = False
+        if tup:
+            for dd in b.defs().get(tup["local"], []):
+                if dd[0] == "assign" and dd[3]["rv"]["k"] == "aggregate":
+                    rr = fl.roots_of_operand(dd[3]["rv"]["ops"][0])
+                    if any(r[0] == "param" and r[1] == x for r in rr):
+                        ok = True
+        if not ok:
+            errs.append("the closure is applied to something other than the current iterate")
+    if errs:
+        res.fail(Finding("R10-fixpoint-invariant", b.path, "; ".join(errs[:2]), b))
+    else:
+        res.ok("R10-fixpoint-invariant", b.path, {"iterate_updates": len(xdefs), "candidate_refreshes": len(refresh), "loop_tests": len(compares)})
+    res.clause("C11: in the Newton driver every comparison of (x, xn) sees xn = f(x) for the current x (no stale candidate after an update of x)")
